@@ -341,6 +341,9 @@ func buildOracle(b builds, cfg tierCfg) oracleInfo {
 			cands = append(cands, r)
 			for _, c := range cands {
 				res, err := replayOnce(b, c, "instcheck")
+				if err != nil {
+					logf("replay of the instrumented-pass disagreement failed: %v", err)
+				}
 				if err == nil && res.Record != nil {
 					c.Violations = res.Record.Violations
 					if len(b.rep.Rewrites) > 0 {
